@@ -388,7 +388,7 @@ pub fn render_files(p: &Project, r: &mut Rng) -> (BTreeMap<String, String>, Vec<
 
 pub fn gen_scn(d: &Data, r: &mut Rng, faulty: bool, bad: Option<&str>) -> Scn {
     let project = gen_project(d, r, bad);
-    let (files, dirs) = render_files(&project, r);
+    let (mut files, dirs) = render_files(&project, r);
     let n = if bad.is_some() { r.range(1, 2) } else { r.range(1, 5) };
     let tag_names: Vec<String> = project.tags.iter().map(|t| t.name.clone()).collect();
     let mut invs = Vec::new();
@@ -513,6 +513,16 @@ pub fn gen_scn(d: &Data, r: &mut Rng, faulty: bool, bad: Option<&str>) -> Scn {
             recover: false,
             iocap: 0,
         });
+    }
+    if bad.is_none() && r.chance(1, 25) {
+        // a regular file sits where a tag's output directory has to be (or where `out` has to be)
+        let t = r.pick(&tag_names).clone();
+        let path = if r.chance(1, 4) { format!("{PROJ}/out") } else { format!("{PROJ}/out/{t}") };
+        files.insert(path, "stale\n".into());
+        for inv in invs.iter_mut() {
+            inv.class = FaultClass::None;
+            inv.recover = false;
+        }
     }
     Scn { project, files, dirs, invs, directed: None }
 }
